@@ -817,6 +817,41 @@ def g1b(cx):
     cx.need(len(out) >= 13, "G1b cases")
 
 
+# ------------------------------------------------------------------------------------------ D2i inner types
+@rule("D2i", ["C14"], "_get_inner_types of every container kind returns all of its inner types (evaluated on abstract classes)")
+def d2i(cx):
+    m = cx.m
+    lab = Lab(m)
+    I, W = lab.I, lab.W
+    out = {}
+
+    def thunk():
+        sc = I.global_lookup("scalar", "Float64")
+        sc2 = I.global_lookup("scalar", "Int8")
+        String = I.global_lookup("string", "String")
+        T = lab.struct("T", [("v", sc)])
+        T2 = lab.struct("T2", [("w", sc)])
+        R = I.call(I.global_lookup("ref", "Ref"), [T], {})
+        MU = I.global_lookup("ref", "MetaUnionRef")
+        U = I.call(I.class_attrs(MU)["__new__"], [MU, "U", (I.global_lookup("ref", "UnionRef"),), {"_reftypes": (T, T2)}], {})
+        A = lab.array("A", (None,), (0,), T2)
+        S = lab.struct("S", [("a", sc), ("t", T), ("s", String), ("r", R), ("u", U), ("arr", A), ("b", sc2)])
+        out["struct"] = (list(I.call(I.getattr(S, "_get_inner_types"), [], {})), [sc, T, String, R, U, A, sc2])
+        out["array"] = (list(I.call(I.getattr(A, "_get_inner_types"), [], {})), [T2])
+        out["ref"] = (list(I.call(I.getattr(R, "_get_inner_types"), [], {})), [T])
+        out["unionref"] = (list(I.call(I.getattr(U, "_get_inner_types"), [], {})), [T, T2])
+        return None
+
+    res = I.explore(thunk, max_paths=8)
+    if len(res) != 1 or res[0]["exc"] is not None:
+        e = res[0]["exc"]
+        raise AnalysisError(f"[D2i] _get_inner_types cannot be evaluated: {e.etype if e else 'fork'}: {e.msg if e else res[0]['conds']}")
+    for kind, (got, want) in out.items():
+        miss = [w for w in want if not any(g is w for g in got)]
+        cx.check(not miss, None, construct=f"{kind}: _get_inner_types() returns {len(got)} type(s), expected the {len(want)} inner type(s) of the kind", detail="every field type / the item type / the reference target / every union member is a dependency",
+                 bad_detail=f"{len(miss)} inner type(s) are not reported ({[getattr(x, 'name', repr(x)) for x in miss]}): their API is not emitted before the container's (unknown type name)", anchor={"struct": "struct::Struct._get_inner_types", "array": "array::Array._get_inner_types", "ref": "ref::Ref._get_inner_types", "unionref": "ref::UnionRef._get_inner_types"}[kind])
+
+
 # ------------------------------------------------------------------------------------------ R13 shape refusal
 @rule("R13", ["C11", "C03"], "construction / whole-array update from an array-like value of another shape is refused before anything is allocated or written")
 def r13(cx):
